@@ -414,3 +414,129 @@ def translate_ladder(repo: str) -> str:
         "   retry policy (microseconds), `success` is result.success *)",
         "Definition gen_decide (pol : Z -> Z) (p : params) (success : bool) (now : Z) : decision :=",
         f"  {body}.", ""])
+
+
+
+class FnHandle(Fn):
+    """A terminal method of repid/message.py Message: guards that raise ValueError, then ONE broker call handed to
+    `self._dispose(...)`, then `self.__read_only = True`.  Translated to `option bcall` (None = refused)."""
+
+    def attr_path(self, e: ast.AST):
+        base, path = super().attr_path(e)
+        if base == "self" and path and path[0] == "parameters":
+            return base, path[1:]                       # self.parameters.<...> is the record itself
+        return base, path
+
+    def expr(self, e: ast.AST) -> tuple[str, str]:
+        src = ast.unparse(e)
+        if src in ("self.__read_only", "self._Message__read_only"):
+            return "ro", "bool"
+        if isinstance(e, ast.Compare) and len(e.ops) == 1 and ast.unparse(e.left) == "self._category" and \
+                ast.unparse(e.comparators[0]) == "MessageCategory.NORMAL" and isinstance(e.ops[0], (ast.Eq, ast.NotEq)):
+            return ("(cat_eqb c Normal)" if isinstance(e.ops[0], ast.Eq) else "(negb (cat_eqb c Normal))"), "bool"
+        if isinstance(e, ast.IfExp) and ast.unparse(e.test) == "next_retry is None":
+            a, ta = self.expr(e.body)
+            self.want(ta, "Z", e)
+            if ast.unparse(e.orelse) != "next_retry":
+                raise TranslateError(f"handle: {src}")
+            return f"(match next_retry with Some d => d | None => {a} end)", "Z"
+        return super().expr(e)
+
+    def broker_call(self, call: ast.Call) -> str:
+        f = ast.unparse(call.func)
+        args = [ast.unparse(a) for a in call.args]
+        if call.keywords:
+            raise TranslateError(f"handle: keyword arguments in {ast.unparse(call)}")
+        for name, ctor in (("ack", "BAck"), ("nack", "BNack"), ("reject", "BReject")):
+            if f == f"self._connection.message_broker.{name}" and args == ["self._key"]:
+                return ctor
+        if f == "self._connection.message_broker.requeue" and len(args) == 3 and args[:2] == ["self._key", "self.raw_payload"]:
+            new = call.args[2]
+            if ast.unparse(new) == "self.parameters._prepare_reschedule()":
+                return "(BRequeue (gen_prepare_reschedule p now))"
+            if isinstance(new, ast.Call) and ast.unparse(new.func) == "self.parameters._prepare_retry" and not new.args and \
+                    len(new.keywords) == 1 and new.keywords[0].arg == "next_retry":
+                b, tb = self.expr(new.keywords[0].value)
+                self.want(tb, "Z", new)
+                return f"(BRequeue (gen_prepare_retry p now {b}))"
+        raise TranslateError(f"handle: unexpected broker call {ast.unparse(call)}")
+
+    def method(self, stmts: list[ast.stmt]) -> str:
+        if not stmts:
+            raise TranslateError(f"{self.name}: no broker call")
+        s, rest = stmts[0], stmts[1:]
+        if isinstance(s, ast.If) and not s.orelse and len(s.body) == 1 and isinstance(s.body[0], ast.Raise):
+            c, t = self.expr(s.test)
+            self.want(t, "bool", s.test)
+            return f"(if {c} then None else {self.method(rest)})"
+        if isinstance(s, ast.Expr) and isinstance(s.value, ast.Await) and isinstance(s.value.value, ast.Call) and \
+                ast.unparse(s.value.value.func) == "self._dispose" and len(s.value.value.args) == 1 and \
+                isinstance(s.value.value.args[0], ast.Call):
+            tail = [ast.unparse(x) for x in rest]
+            if tail != ["self.__read_only = True"]:
+                raise TranslateError(f"{self.name}: after the broker call: {tail} (the read-only flag must be set, nothing else)")
+            return f"(Some {self.broker_call(s.value.value.args[0])})"
+        raise TranslateError(f"{self.name}: unexpected statement {ast.unparse(s)[:80]}")
+
+
+def translate_handle(repo: str) -> str:
+    """coq/GenHandle.v: guards and broker call of the six terminal methods of repid/message.py Message."""
+    rel = "repid/message.py"
+    tree = ast.parse(Path(repo, rel).read_text())
+    out = ["(* GENERATED by harness/translate.py from /repo's current source - do not edit. *)",
+           "From Repid Require Import Base Sched GenSched Handle.", "",
+           f"(* {rel} Message: what a terminal method asks of the broker (None = refused with ValueError); ro = the read-only flag,",
+           "   c = the category the message was taken from *)"]
+    dispose = find_func(tree, ["Message", "_dispose"])
+    if [ast.unparse(x) for x in dispose.body] != ["await broker_call"]:
+        raise TranslateError("Message._dispose is not `await broker_call`")
+    for name in ("ack", "nack", "reject", "reschedule", "retry", "force_retry"):
+        node = find_func(tree, ["Message", name])
+        params = [a.arg for a in node.args.args]
+        extra = " (next_retry : option Z)" if name in ("retry", "force_retry") else ""
+        if params != (["self", "next_retry"] if extra else ["self"]):
+            raise TranslateError(f"Message.{name}: parameters {params}")
+        zvars = {"next_retry": ("next_retry", "optZ")} if extra else {}
+        body = FnHandle(f"Message.{name}", "bcall", {"self": "p"}, zvars).method(node.body)
+        out.append(f"Definition gen_msg_{name} (ro : bool) (c : cat) (p : params) (now : Z){extra} : option bcall :=\n  {body}.")
+    # the eager actions of MessageDependency: the Message action (retry / force_retry with the actor's policy as the default
+    # back-off), then the callbacks, then _NoAction with a default success flag
+    rel2 = "repid/dependencies/message_dependency.py"
+    tree2 = ast.parse(Path(repo, rel2).read_text())
+    out += ["", f"(* {rel2} MessageDependency: the same through super(), the default back-off of retry / force_retry is the actor's retry",
+            "   policy; `gen_dep_default_success_*` is the success flag _NoAction carries when no result was set *)"]
+    for name in ("ack", "nack", "reject", "reschedule", "retry", "force_retry"):
+        node = find_func(tree2, ["MessageDependency", name])
+        stmts = list(node.body)
+        if len(stmts) != 3:
+            raise TranslateError(f"MessageDependency.{name}: {len(stmts)} statements (super call, callbacks, _NoAction expected)")
+        first = stmts[0]
+        ok = isinstance(first, ast.Expr) and isinstance(first.value, ast.Await) and isinstance(first.value.value, ast.Call)
+        call = first.value.value if ok else None
+        if not ok or ast.unparse(call.func) != f"super().{name}" or call.args:
+            raise TranslateError(f"MessageDependency.{name}: first statement is not `await super().{name}(...)`")
+        if ast.unparse(stmts[1]) != "await self.__execute_callbacks()":
+            raise TranslateError(f"MessageDependency.{name}: second statement {ast.unparse(stmts[1])[:60]}")
+        third = stmts[2]
+        if not (isinstance(third, ast.Raise) and isinstance(third.exc, ast.Call) and ast.unparse(third.exc.func) == "_NoAction"):
+            raise TranslateError(f"MessageDependency.{name}: third statement is not `raise _NoAction(...)`")
+        succ = {k.arg: k.value for k in third.exc.keywords}.get("success")
+        if not (isinstance(succ, ast.IfExp) and ast.unparse(succ.test) == "self.__result_success is not None" and
+                ast.unparse(succ.body) == "self.__result_success" and isinstance(succ.orelse, ast.Constant) and
+                isinstance(succ.orelse.value, bool)):
+            raise TranslateError(f"MessageDependency.{name}: success flag of _NoAction")
+        out.append(f"Definition gen_dep_default_success_{name} : bool := {'true' if succ.orelse.value else 'false'}.")
+        if name in ("retry", "force_retry"):
+            if len(call.keywords) != 1 or call.keywords[0].arg != "next_retry":
+                raise TranslateError(f"MessageDependency.{name}: arguments of the super call")
+            v = call.keywords[0].value
+            if not (isinstance(v, ast.IfExp) and ast.unparse(v.test) == "next_retry is None" and ast.unparse(v.orelse) == "next_retry" and
+                    isinstance(v.body, ast.Call) and ast.unparse(v.body.func) == "self._actor_data.retry_policy" and not v.body.args and
+                    len(v.body.keywords) == 1 and v.body.keywords[0].arg == "retry_number"):
+                raise TranslateError(f"MessageDependency.{name}: default back-off")
+            n, tn = FnHandle(f"MessageDependency.{name}", "bcall", {"self": "p"}, {}).expr(v.body.keywords[0].value)
+            out.append(f"Definition gen_dep_{name} (pol : Z -> Z) (ro : bool) (c : cat) (p : params) (now : Z) (next_retry : option Z) : option bcall :=\n"
+                       f"  gen_msg_{name} ro c p now (Some (match next_retry with Some d => d | None => pol {n} end)).")
+        elif call.keywords:
+            raise TranslateError(f"MessageDependency.{name}: arguments of the super call")
+    return "\n".join(out) + "\n"
